@@ -22,6 +22,17 @@ from myst_parser.warnings_ import MystWarnings
 LOGGER = logging.getLogger(__name__)
 
 
+def _is_file(path: Path) -> bool:
+    """Whether the path is an existing file.
+
+    A path the OS rejects (e.g. a file name that is too long) is not a file.
+    """
+    try:
+        return path.is_file()
+    except OSError:
+        return False
+
+
 class SphinxRenderer(DocutilsRenderer):
     """A markdown-it-py renderer to populate (in-place) a `docutils.document` AST.
 
@@ -143,7 +154,7 @@ class SphinxRenderer(DocutilsRenderer):
             _, path_str = self.sphinx_env.relfn2path(path_dest, self.sphinx_env.docname)
             potential_path = Path(path_str)
 
-        if potential_path and potential_path.is_file():
+        if potential_path and _is_file(potential_path):
             docname = self.sphinx_env.path2doc(str(potential_path))
             if docname:
                 wrap_node = addnodes.pending_xref(
